@@ -16,7 +16,7 @@ Proof. exact sequence_full. Qed.
 Print Assumptions C12_sequence.
 
 (* start = end (a region covering the whole ring from a start other than 0) is not treated as
-   origin-crossing: the extract is empty (finding whole_ring_region) *)
+   origin-crossing: the extract is empty (finding whole_ring_region, still recorded) *)
 Theorem C12_sequence_whole_ring_refuted : exists r sq feats o,
   wf_region r (zlen sq) /\ rstart r = rend r /\ write_to_genbank r sq feats = Ok o /\
   o_seq o = [] /\ o_feats o = [] /\ length (expected_seq r sq) = 10%nat.
@@ -33,9 +33,10 @@ Proof. exact write_linear_same_bases. Qed.
 Print Assumptions C12_shift_same_bases_linear.
 
 (* an origin-crossing region: first the features before the origin (same bases, moved by -start), then
-   every origin-crossing feature of the record with offset_location(-start, wrap N) applied, then the
-   features after the origin (same bases, moved by N - start); well-formed features whose exon lengths
-   do not add up to N *)
+   the origin-crossing features of the record whose parts all lie within the region (and only those:
+   repaired finding wrapped_region_partial_feature) with offset_location(-start, wrap N) applied, then
+   the features after the origin (same bases, moved by N - start); well-formed features whose exon
+   lengths do not add up to N *)
 Theorem C12_shift_same_bases_crossing : forall r sq feats o,
   wf_region r (zlen sq) -> crosses r = true -> write_to_genbank r sq feats = Ok o ->
   Forall (wf_feat (zlen sq)) feats ->
@@ -43,7 +44,7 @@ Theorem C12_shift_same_bases_crossing : forall r sq feats o,
   exists ga gb gc, o_feats o = ga ++ gb ++ gc /\
     Forall2 (same_bases (- rstart r)) (filter (inside (rstart r) N) feats) ga /\
     Forall2 (fun f g => offset_location (floc f) (- rstart r) (Some N) = Ok (floc g) /\ same_id f g)
-            (filter (fun f => bridges (floc f)) feats) gb /\
+            (filter (cross_kept r) feats) gb /\
     Forall2 (same_bases (N - rstart r)) (filter (inside 0 (rend r)) feats) gc.
 Proof. exact write_crossing_same_bases. Qed.
 Print Assumptions C12_shift_same_bases_crossing.
@@ -59,14 +60,13 @@ Theorem C12_cross_feature_forward_partial : forall N a b start st,
 Proof. exact offset_cross_forward. Qed.
 Print Assumptions C12_cross_feature_forward_partial.
 
-(* every origin-crossing feature of the record is written, whether or not the region contains it
-   (finding wrapped_region_partial_feature): a gene [6,10)+[0,2) ends up at [8,10)+[0,4) in an extract
-   of 5 bases *)
-Theorem C12_cross_feature_partial_refuted : exists r sq feats o,
-  wf_region r (zlen sq) /\ crosses r = true /\ write_to_genbank r sq feats = Ok o /\
-  out_len r (zlen sq) = 5 /\ map floc (o_feats o) = [[mkPart 8 10 1; mkPart 0 4 1]].
-Proof. exact cross_feature_partial_refuted. Qed.
-Print Assumptions C12_cross_feature_partial_refuted.
+(* ... and that part lies inside the extract when the region contains the feature (b <= end) *)
+Theorem C12_cross_feature_forward_inside : forall r N a b st,
+  wf_region r N -> crosses r = true -> in_wrapped_region r [mkPart a N st; mkPart 0 b st] = true ->
+  0 < b -> a < N -> rstart r <= a ->
+  0 <= a - rstart r /\ N - rstart r + b <= out_len r N.
+Proof. exact offset_cross_forward_inside. Qed.
+Print Assumptions C12_cross_feature_forward_inside.
 
 (* renumbering n -> n - min + 1: the smallest number becomes 1, the map is injective and order
    preserving, and numbers that are contiguous (all below min + k) land in 1..k - for every non-empty
@@ -89,13 +89,14 @@ Theorem C12_renumber_offsets : forall r N c, make_ctx r N = Ok c ->
 Proof. exact make_ctx_firsts. Qed.
 Print Assumptions C12_renumber_offsets.
 
-(* what is rewritten per feature type: region: candidate_cluster_numbers (subregion_numbers is NOT);
+(* what is rewritten per feature type: region: candidate_cluster_numbers and subregion_numbers;
    cand_cluster: its number and its protocluster list; protocluster / proto_core: the number (which
    must be a protocluster of the region); subregion: its number; type, identity and location of a
    feature are never touched by the renumbering *)
 Theorem C12_adjust_numbers : forall c f g, adjust_feat c f = Ok g ->
   (floc g = floc f /\ ftype g = ftype f /\ ftag g = ftag f) /\
-  (ftype f = T_region -> fq1 g = map (renum (c_first_cc c)) (fq1 f) /\ fq2 g = fq2 f) /\
+  (ftype f = T_region -> fq1 g = map (renum (c_first_cc c)) (fq1 f) /\
+                         fq2 g = map (renum (c_first_sub c)) (fq2 f)) /\
   (ftype f = T_cand -> exists n q, fq1 f = n :: q /\ fq1 g = [renum (c_first_cc c) n] /\
                                    fq2 g = map (renum (c_first_cluster c)) (fq2 f)) /\
   (ftype f = T_proto \/ ftype f = T_core ->
@@ -107,7 +108,8 @@ Print Assumptions C12_adjust_numbers.
 
 (* cross references stay consistent: the region feature lists candidate n iff its rewritten list holds
    the candidate's new number; the candidate lists protocluster n iff its rewritten list holds the new
-   number of the protocluster / proto_core feature *)
+   number of the protocluster / proto_core feature; the region feature lists sub-region n iff its
+   rewritten list holds the sub-region's new number (repaired finding subregion_refs_not_renumbered) *)
 Theorem C12_refs_region_candidate : forall c fr fc gr gc n q,
   ftype fr = T_region -> ftype fc = T_cand ->
   adjust_feat c fr = Ok gr -> adjust_feat c fc = Ok gc -> fq1 fc = n :: q ->
@@ -122,16 +124,12 @@ Theorem C12_refs_candidate_protocluster : forall c fc fp gc gp n q,
 Proof. exact refs_cand_proto. Qed.
 Print Assumptions C12_refs_candidate_protocluster.
 
-(* the reference region -> sub-region is NOT kept consistent (finding subregion_refs_not_renumbered):
-   the sub-region becomes number 1, the region feature still lists 2 *)
-Theorem C12_subregion_refs_refuted : exists r sq feats o,
-  wf_region r (zlen sq) /\ crosses r = false /\ contiguous (rsubs r) = true /\
-  write_to_genbank r sq feats = Ok o /\
-  nums_of T_sub (o_feats o) = [1] /\
-  flat_map (fun f => if ftype f =? T_region then fq2 f else []) (o_feats o) = [2] /\
-  numbers_ok (o_feats o) = false.
-Proof. exact subregion_refs_refuted. Qed.
-Print Assumptions C12_subregion_refs_refuted.
+Theorem C12_refs_region_subregion : forall c fr fs gr gs n q,
+  ftype fr = T_region -> ftype fs = T_sub ->
+  adjust_feat c fr = Ok gr -> adjust_feat c fs = Ok gs -> fq1 fs = n :: q ->
+  (In n (fq2 fr) <-> In (renum (c_first_sub c) n) (fq2 gr)) /\ fq1 gs = [renum (c_first_sub c) n].
+Proof. exact refs_region_sub. Qed.
+Print Assumptions C12_refs_region_subregion.
 
 (* gaps in the numbers (origin-crossing region whose members sort to both ends of the record's lists)
    stay: 1, 3 is written as 1, 3 (finding wrapped_region_numbering) *)
@@ -141,37 +139,34 @@ Theorem C12_renumber_gap_refuted : exists r sq feats o,
 Proof. exact renumber_gap_refuted. Qed.
 Print Assumptions C12_renumber_gap_refuted.
 
-(* leader/tail locations are moved by -start without the wrap point: negative after the origin
-   (finding wrapped_region_motif_offset) *)
-Theorem C12_motif_wrapped_refuted : exists r sq feats o,
-  wf_region r (zlen sq) /\ crosses r = true /\ write_to_genbank r sq feats = Ok o /\
-  map floc (o_feats o) = [[mkPart 3 5 1]] /\ map fl1 (o_feats o) = [Some [mkPart (-7) (-6) 1]].
-Proof. exact motif_wrapped_refuted. Qed.
-Print Assumptions C12_motif_wrapped_refuted.
+(* leader/tail locations (one part) are moved with the wrap point, like the feature itself (repaired
+   finding wrapped_region_motif_offset): a part after the origin of an origin-crossing region goes to
+   [a - start + N, b - start + N), a part at or after the region start to [a - start, b - start).
+   Partial: locations of several parts are covered by the correspondence run *)
+Theorem C12_motif_post_origin : forall N a b start st,
+  0 <= a -> a < b -> b <= start -> start < N ->
+  adjust_motif_loc start N [mkPart a b st] = Ok [mkPart (a - start + N) (b - start + N) st].
+Proof. exact adjust_motif_post_origin. Qed.
+Print Assumptions C12_motif_post_origin.
 
-(* after the call every feature of the parent has its location, type and identity back - for every
-   input on which the call returns; and the parent is unchanged altogether when the region does not
-   cross the origin or no origin-crossing feature of the record is an area feature / CDS_motif *)
+Theorem C12_motif_plain : forall N a b start st,
+  0 <= start -> start <= a -> a < b -> b <= N -> b - a <> N ->
+  adjust_motif_loc start N [mkPart a b st] = Ok [mkPart (a - start) (b - start) st].
+Proof. exact adjust_motif_plain. Qed.
+Print Assumptions C12_motif_plain.
+
+(* after the call every feature of the parent is what it was before - for every input on which the
+   call returns (repaired finding wrapped_region_parent_qualifiers: the extract is built from copies) *)
+Theorem C12_parent_unchanged : forall r sq feats o, write_to_genbank r sq feats = Ok o ->
+  o_parent o = feats.
+Proof. exact write_parent_unchanged. Qed.
+Print Assumptions C12_parent_unchanged.
+
 Theorem C12_parent_locations_restored : forall r sq feats o, write_to_genbank r sq feats = Ok o ->
   map floc (o_parent o) = map floc feats /\ map ftype (o_parent o) = map ftype feats
   /\ map ftag (o_parent o) = map ftag feats.
 Proof. exact write_parent_locations. Qed.
 Print Assumptions C12_parent_locations_restored.
-
-Theorem C12_parent_unchanged : forall r sq feats o, write_to_genbank r sq feats = Ok o ->
-  (crosses r = false \/
-   forallb (fun f => negb (adjustable f)) (filter (fun f => bridges (floc f)) feats) = true) ->
-  o_parent o = feats.
-Proof. exact write_parent_unchanged. Qed.
-Print Assumptions C12_parent_unchanged.
-
-(* without the guard it is false (finding wrapped_region_parent_qualifiers): the origin-crossing
-   protocluster of the parent keeps the rewritten core_location *)
-Theorem C12_parent_unchanged_refuted : exists r sq feats o,
-  wf_region r (zlen sq) /\ crosses r = true /\
-  write_to_genbank r sq feats = Ok o /\ o_parent o <> feats /\ map floc (o_parent o) = map floc feats.
-Proof. exact parent_unchanged_refuted. Qed.
-Print Assumptions C12_parent_unchanged_refuted.
 
 (* ---- non-vacuity: the hypotheses are satisfiable on non-trivial inputs ---- *)
 Definition ex_seq := [0; 1; 2; 3; 3; 2; 1; 0; 0; 1; 2; 3].
@@ -220,3 +215,29 @@ Proof. split; reflexivity. Qed.
 Example C12_ex_cross_forward :
   offset_location [mkPart 10 12 1; mkPart 0 1 1] (- 9) (Some 12) = Ok [mkPart 1 4 1].
 Proof. reflexivity. Qed.
+
+(* the witnesses of the repaired findings now satisfy the property *)
+Example C12_ex_cross_feature_partial : exists r sq feats o,
+  wf_region r (zlen sq) /\ crosses r = true /\ write_to_genbank r sq feats = Ok o /\
+  out_len r (zlen sq) = 5 /\ map ftag feats = [1; 2] /\ map ftag (o_feats o) = [2] /\
+  map floc (o_feats o) = [[mkPart 1 4 1]].
+Proof. exact cross_feature_partial_witness. Qed.
+
+Example C12_ex_subregion_refs : exists r sq feats o,
+  wf_region r (zlen sq) /\ crosses r = false /\
+  write_to_genbank r sq feats = Ok o /\
+  nums_of T_sub (o_feats o) = [1] /\
+  flat_map (fun f => if ftype f =? T_region then fq2 f else []) (o_feats o) = [1] /\
+  numbers_ok (o_feats o) = true.
+Proof. exact subregion_refs_witness. Qed.
+
+Example C12_ex_motif_wrapped : exists r sq feats o,
+  wf_region r (zlen sq) /\ crosses r = true /\ write_to_genbank r sq feats = Ok o /\
+  map floc (o_feats o) = [[mkPart 3 5 1]] /\ map fl1 (o_feats o) = [Some [mkPart 3 4 1]].
+Proof. exact motif_wrapped_witness. Qed.
+
+Example C12_ex_parent_unchanged : exists r sq feats o,
+  wf_region r (zlen sq) /\ crosses r = true /\
+  write_to_genbank r sq feats = Ok o /\ o_parent o = feats /\
+  map fl1 feats = [None; Some w_core] /\ map fl1 (o_feats o) = [None; Some [mkPart 1 3 1]].
+Proof. exact parent_unchanged_witness. Qed.
